@@ -369,13 +369,10 @@ static bool run_history(const Trace &tr, const std::vector<Op> &ops, Result &r, 
       } else
         for (size_t i = 0; i < vc.size(); i++) {
           if (is_site((int)i)) {
-            bool en = m.E.count(site_loc((int)i)) > 0;
-            OpCode want = en ? OpCode::BREAK : OpCode::POTENTIAL_BREAK;
-            if (vc[i].op != want) {
-              if (failf("C06", "stop:site-opcode", "site " + std::to_string(i) + " of " + site_loc((int)i).first + ":" + std::to_string(site_loc((int)i).second) +
-                                                       " is " + (vc[i].op == OpCode::BREAK ? "armed" : vc[i].op == OpCode::POTENTIAL_BREAK ? "passive" : "no breakpoint") +
-                                                       " but the line is " + (en ? "enabled" : "not enabled") + ctx))
-                return false;
+            // how a site is armed is the implementation's business (the stop behaviour is what C06 judges, and
+            // "back to its passive form" is asserted right after reset for C17); here only: a site stays a site
+            if (vc[i].op != OpCode::BREAK && vc[i].op != OpCode::POTENTIAL_BREAK) {
+              if (failf("C05", "transparent:code-modified", "breakpoint site " + std::to_string(i) + " was replaced by another instruction" + ctx)) return false;
             }
           } else if (memcmp(&vc[i], &prog.code[i], sizeof(Theo::Instruction)) != 0) {
             if (failf("C05", "transparent:code-modified", "instruction " + std::to_string(i) + " (not a breakpoint site) was modified" + ctx)) return false;
